@@ -1510,3 +1510,79 @@ def ack_queue_discipline(cx, iid):
         inst.site(em, None, "emit_ack_frames: %d peek, %d pop" % (len(pk_s), len(po_s)))
         if len(pk_s) != 1 or len(po_s) != 1:
             inst.violation(em.path, "peek/pop", "emit_ack_frames should peek and pop the ack queue once per cycle")
+
+
+def receiver_flag_addressing(cx, iid):
+    """T4 SIBLING: the packet receiver keeps three bit sets — entry_flags and data_flags (one bit per window slot, word
+    slot/64, bit slot%64) and channel_ready_flags (one bit per channel).  Every read and write of a slot flag addresses
+    word and bit with the same masked id, and every update of a set touches exactly one bit: `|= 1 << b` or
+    `&= !(1 << b)`.  A test that looks at bit slot%63, or an update that clears every other channel's ready bit, makes the
+    receiver skip an entry that is present (or wait for one that is not): packets of other channels stay undelivered
+    until another datagram happens to arrive for them."""
+    R = cx.R
+    fns = ("PacketReceiver::handle_datagram", "PacketReceiver::receive", "PacketReceiver::advance_window", "PacketReceiver::resynchronize")
+    W = r"cast<usize>\(bitand\((?:arg1\.receive_window_mask,.*|.*,arg1\.receive_window_mask)\)\)"
+    with cx.instance(iid, "T4 SIBLING (bit addressing)", "slot flags are addressed as word slot/64, bit slot%64 of one masked id at every access; flag sets are updated one bit at a time", floor=10) as inst:
+        n = [0]
+
+        def walk(b, loc, e, top_write=None):
+            if not isinstance(e, tuple):
+                return
+            if e and e[0] == "bin" and e[1] in ("BitAnd", "BitOr") and len(e) == 4:
+                sa, sb = show(e[2]), show(e[3])
+                for flag_s, mask_e in ((sa, e[3]), (sb, e[2])):
+                    m = re.fullmatch(r"arg1\.(entry_flags|data_flags)\[(.*)\]", flag_s)
+                    mc = flag_s == "arg1.channel_ready_flags"
+                    if not m and not mc:
+                        continue
+                    ms = show(mask_e)
+                    mm = re.fullmatch(r"(not\()?shl\(1,(.*?)\)(?(1)\))", ms)
+                    n[0] += 1
+                    what = "%s %s %s" % (flag_s[:60], e[1], ms[:60])
+                    if not mm:
+                        inst.site(b, loc, what)
+                        inst.violation(b.path, "flag mask", "a flag set is combined with `%s`, not with a single bit 1 << b (or its complement)" % ms[:120], at=b.span_at(loc))
+                        continue
+                    if not top_write and (e[1] == "BitOr" or mm.group(1)):
+                        inst.site(b, loc, what)
+                        inst.violation(b.path, "flag test", "a flag is tested as `%s %s %s`: a test reads one bit with & (1 << b)" % (flag_s[:50], e[1], ms[:70]), at=b.span_at(loc))
+                        continue
+                    if e[1] == "BitOr" and mm.group(1) or (e[1] == "BitAnd" and top_write and not mm.group(1)):
+                        inst.site(b, loc, what)
+                        inst.violation(b.path, "flag update", "a flag set is updated as `%s %s %s`: setting needs |= bit, clearing needs &= !bit" % (flag_s[:50], e[1], ms[:70]), at=b.span_at(loc))
+                        continue
+                    if m:
+                        idx, bit = m.group(2), mm.group(2)
+                        mi = re.fullmatch(r"div\((%s),64\)" % W, idx)
+                        mb = re.fullmatch(r"rem\((%s),64\)" % W, bit)
+                        inst.site(b, loc, what)
+                        if not mi or not mb or mi.group(1) != mb.group(1):
+                            inst.violation(b.path, "slot flag addressing", "slot flag accessed as word `%s`, bit `%s`: expected slot/64 and slot%%64 of the same masked id" % (idx[:80], bit[:80]), at=b.span_at(loc))
+                    else:
+                        inst.site(b, loc, what)
+            for c in e:
+                if isinstance(c, tuple):
+                    walk(b, loc, c, None)
+                elif isinstance(c, list):
+                    for x in c:
+                        walk(b, loc, x, None)
+        for fn in fns:
+            b = R.body(fn)
+            for loc, s in b.assigns():
+                pl = show(b.place_expr(s["pl"])) if s["pl"]["p"] else None
+                is_flag_write = bool(pl) and bool(re.fullmatch(r"arg1\.(entry_flags\[.*\]|data_flags\[.*\]|channel_ready_flags)", pl))
+                if not is_flag_write and s["pl"]["p"]:
+                    continue
+                if not is_flag_write and not b.is_single_def(s["pl"]["l"]):
+                    pass
+                e = b.rvalue_expr(s["rv"])
+                if is_flag_write:
+                    es = show(e)
+                    if not re.match(r"bit(and|or)\(", es):
+                        inst.violation(b.path, "flag store", "`%s` is overwritten with `%s` instead of updated one bit at a time" % (pl[:60], es[:100]), at=b.span_at(loc))
+                        continue
+                    walk(b, loc, e, top_write=True)
+                elif "_flags" in show(e) and show(e).startswith(("bitand(", "bitor(")):
+                    walk(b, loc, e, None)
+        if n[0] < 10:
+            inst.violation("half_connection::packet_receiver::PacketReceiver", "flag accesses", "fewer flag accesses than counted by hand (anchor)")
